@@ -150,6 +150,9 @@ func (vc *VC) frameObligations(c *Contract, args []Val, out *State) {
 		if cur == base {
 			continue
 		}
+		if strings.HasPrefix(name, "Z!plain!") || name == "Z!rvSliceLen" || name == "Z!zoneOff" {
+			continue // ghost attributes of objects created by the call itself (keys are fresh by construction)
+		}
 		if !vc.dirty[name] {
 			continue // every store to this heap in this function went to an object allocated here
 		}
@@ -191,7 +194,7 @@ func (vc *VC) frameObligations(c *Contract, args []Val, out *State) {
 			conds = append(conds, app("bvult", key, "alloc0"))
 		case strings.HasPrefix(name, "A!"):
 			conds = append(conds, app("bvult", "((_ zero_extend 16) ((_ extract 63 16) "+key+"))", "alloc0"))
-		case strings.HasPrefix(name, "M!"):
+		case strings.HasPrefix(name, "M!"), strings.HasPrefix(name, "Z!rv"):
 			conds = append(conds, app("bvult", key, "alloc0"))
 		}
 		for _, kk := range keys {
